@@ -8,13 +8,15 @@ from vp.framework import Violation
 RULE = ("Grids with 2..6 cells per direction (uniform/stretched/random "
         "widths), four anisotropy cases, optional mu_r, frequency or Laplace, "
         "induction-number regime drawn; line-relaxation code 0..7 and sweep "
-        "count 1..4 through solver.smoothing (and the kernels' py_func on a "
+        "count 1..6 through solver.smoothing (and the kernels' py_func on a "
         "sub-sample).  Oracles against the checker's assembled operator: "
         "(i) exact solution is a fixed point (residual form), (ii) after "
         "smoothing from a random start a block of the relaxed type has zero "
         "residual, (iii) affinity in (field, source), (iv) boundary edges "
         "never written, (v) two-cell directions are dropped from the line "
-        "code; (vi) core.solve on random complex-symmetric 11-diagonal "
+        "code, (vii) an end block of the documented lexicographic order "
+        "has zero residual and nu=2 followed "
+        "by nu=b equals nu=2+b; (vi) core.solve on random complex-symmetric 11-diagonal "
         "systems == dense solve.  Non-trivial = non-uniform widths, "
         "heterogeneous model, >=2 blocks; distinct by (shape, lr, nu, seeds).")
 ASSUMPTIONS = [
@@ -34,7 +36,7 @@ def smooth_spec():
         'model': gen.model_spec(epsr=False),
         'freq': gen.freq_spec(),
         'lr': st.integers(0, 7),
-        'nu': st.integers(1, 4),
+        'nu': st.integers(1, 6),
         'alpha': st.floats(-1.5, 2.5),
         'fseed': gen.SEED,
         # dense random fields, or fields with only a few non-zero interior
@@ -197,6 +199,17 @@ def case_smooth(spec, rec):
                                 f"best block residual {best:.2e} (median "
                                 f"{np.median(vals):.2e}); shape {shape}, "
                                 f"nu {nu}, directions '{dirs}'")
+            # documented: symmetric Gauss-Seidel in lexicographic order,
+            # alternating direction -> the block relaxed last is one of the
+            # two ends of that order (which end is a labelling matter)
+            last = min(vals[0], vals[-1])
+            if last > 1e-9:
+                raise Violation(
+                    "last_block_not_relaxed"+sig,
+                    f"neither end block of the lexicographic order is "
+                    f"exactly relaxed after {nu} sweeps: residuals "
+                    f"{vals[0]:.2e} / {vals[-1]:.2e} (best block "
+                    f"{best:.2e}); shape {shape}, directions '{dirs}'")
 
     # (iii) affinity ----------------------------------------------------------
     a = spec['alpha']
@@ -222,6 +235,29 @@ def case_smooth(spec, rec):
     if np.max(np.abs(d)) > 1e-7/min(1.0, ind_min)*np.max(mag):
         raise Violation(f"not_affine_field:{tag}",
                         f"affinity defect {np.max(np.abs(d))/np.max(mag):.2e}")
+
+    # (vii) sweeps compose: nu = 2 followed by nu = b is nu = 2 + b -----------
+    # (each call starts forward; single relaxation type only, because the
+    # combined codes run all sweeps of one direction before the next)
+    if len(dirs) <= 1:
+        ea, eb = field(61), field(61)
+        sab = field(62, source=True)
+        _smooth(emg3d, vm, sab, ea, 2, lr)
+        _smooth(emg3d, vm, sab, ea, nu, lr)
+        _smooth(emg3d, vm, sab, eb, nu + 2, lr)
+        d = ea.field - eb.field
+        mag = np.abs(ea.field) + np.abs(eb.field)
+        scl = absA @ mag + np.abs(sab.field)
+        rd = np.abs(A @ d)
+        if np.any(rd[interior] > 1e-9*(scl[interior] + 1e-3*scl.max())):
+            raise Violation(
+                f"sweeps_do_not_compose:{tag}:nu{nu+2}",
+                f"smoothing(nu=2) then smoothing(nu={nu}) differs from "
+                f"smoothing(nu={nu+2}): max scaled residual of the "
+                f"difference "
+                f"{np.max(rd[interior]/(scl[interior]+1e-300)):.2e}; "
+                f"shape {shape}")
+        rec.cls('composition_checked')
 
     # (v) two-cell directions dropped -----------------------------------------
     if 2 in shape and lr != LR_CODE[dirs]:
